@@ -100,6 +100,11 @@ pub fn run_c13(cfg: &RunCfg, trace: bool) -> RunOut {
             let mut ax = AExec { root: ab.root.clone(), slots: Default::default() };
             ab.ctl.on.store(true, Ordering::SeqCst);
             cx.out.count("probe.c13.async_runs");
+            if let Some(plan) = &cfg.fault {
+                // the same kind of I/O failure through the async wrappers
+                ab.ctl.fail_at.store(plan.k * (1 + plan.op_index as u64), Ordering::SeqCst);
+                ab.ctl.sticky.store(plan.sticky, Ordering::SeqCst);
+            }
             for (idx, op) in cfg.ops.iter().enumerate() {
                 let mut st = PollStats::default();
                 let r = ax.exec(op, &mut st);
@@ -115,6 +120,7 @@ pub fn run_c13(cfg: &RunCfg, trace: bool) -> RunOut {
                 }
             }
             ab.ctl.on.store(false, Ordering::SeqCst);
+            cx.out.add("fault.async_call_error", ab.ctl.faults_fired.load(Ordering::SeqCst));
             if cx.out.violations.is_empty() {
                 let uni = cx.universe[0].clone();
                 if let Ok(s) = asnapshot(&ab, &uni) {
